@@ -534,3 +534,28 @@ func VBuildPaths(rings Paths64, preserveCollinear, reverseSolution bool) Paths64
 	c.buildPaths(&sol, &open)
 	return sol
 }
+
+// VOffsetOpenRaw runs the real buildNormals + offsetOpenJoined / offsetOpenPath on one open path of at
+// least two points and returns the raw rings appended to the solution (before the final union).
+func VOffsetOpenRaw(path Path64, groupDelta float64, jt JoinType, et EndType, miterLimit float64) Paths64 {
+	co := NewClipperOffset(miterLimit, 0, false, false)
+	sol := Paths64{}
+	co.solution = &sol
+	co.groupDelta = groupDelta
+	co.delta = groupDelta
+	co.joinType = jt
+	co.endType = et
+	if co.MiterLimit <= 1 {
+		co.mitLimSqr = 2.0
+	} else {
+		co.mitLimSqr = 2.0 / sqr(co.MiterLimit)
+	}
+	g := &Group{joinType: jt, endType: et}
+	co.buildNormals(path)
+	if et == Joined {
+		co.offsetOpenJoined(g, path)
+	} else {
+		co.offsetOpenPath(g, path)
+	}
+	return sol
+}
